@@ -281,16 +281,19 @@ func (c *RetryClient) SetClient(ctx context.Context, cli *BaseClient) {
 		close(c.chConnSwitch)
 	}
 	c.chConnSwitch = make(chan struct{})
+	first := c.chTask == nil
+	if first {
+		c.chTask = make(chan struct{}, 1)
+	}
 	c.mu.Unlock()
 	c.muStats.Lock()
 	c.stats.CountSetClient++
 	c.muStats.Unlock()
 
-	if c.chTask != nil {
+	if !first {
 		return
 	}
 
-	c.chTask = make(chan struct{}, 1)
 	go func() {
 		connected := false
 		ctx := context.Background()
